@@ -176,9 +176,11 @@ impl Widget {
             if let Some(refs) = expr::build_object_ref_list(p, diagnostics) {
                 refs.into_iter()
                     .map(|id| {
+                        // may be the generated name of an object without id (e.g. implicit this)
                         let o = ctx
                             .object_tree
-                            .get_by_id(&id)
+                            .flat_iter()
+                            .find(|o| o.name() == id)
                             .expect("object ref must be valid");
                         if is_action_separator(ctx, o, diagnostics) {
                             ACTION_SEPARATOR_NAME.to_owned()
